@@ -59,7 +59,7 @@ fn glide_calls() -> BoxedStrategy<ApiCase> {
         2 => prop_oneof![Just(1e30f32), Just(f32::MAX), Just(1e-45f32), Just(f32::MIN_POSITIVE), Just(1e-20f32), Just(10.0f32), Just(1000.0f32), Just(-0.0f32)],
         1 => log_uniform(1e-9, 1e9),
     ];
-    let x = prop_oneof![4 => -10.0f32..=10.0, 1 => prop_oneof![Just(0.0f32), Just(1e-40f32), Just(-1e-38f32), Just(10.0f32), Just(-10.0f32)]];
+    let x = prop_oneof![4 => -10.0f32..=10.0, 1 => prop_oneof![Just(0.0f32), Just(1e-40f32), Just(-1e-38f32), Just(10.0f32), Just(-10.0f32)], 1 => tiny_f32()];
     let call = prop_oneof![
         3 => t.prop_map(GlideCall::SetTime),
         3 => x.clone().prop_map(GlideCall::Process),
